@@ -99,18 +99,22 @@ Print Assumptions C14_sami_syncs_sorted.
 Theorem C14_sorted_is_oracle_order : forall b, sorted b -> nondecr (map fst b) = true.
 Proof. exact sorted_nondecr. Qed.
 Print Assumptions C14_sorted_is_oracle_order.
-(* each language's paragraphs are its cue sequence, in order (partial: the first language's cues have positive
-   duration at millisecond resolution, so that no two blocks share a start; the general case is decided by the
-   check's oracle on every generated case)
-   full statement: forall cs, NoDup (map fst cs) -> (forall l caps, In (l, caps) cs -> caps_sorted 0 caps) ->
-                   forall l caps, In (l, caps) cs -> cpars l (sami_write cs) = lang_pars caps 0 *)
-Theorem C14_sami_language_order_partial : forall l0 caps0 rest,
-  NoDup (map fst ((l0, caps0) :: rest)) -> caps_strict 0 caps0 ->
-  (forall l caps, In (l, caps) rest -> caps_sorted 0 caps) ->
-  forall l caps, In (l, caps) ((l0, caps0) :: rest) ->
-    cpars l (sami_write ((l0, caps0) :: rest)) = lang_pars caps 0.
-Proof. exact sami_language_order_partial. Qed.
-Print Assumptions C14_sami_language_order_partial.
+(* each language's paragraphs in the body are exactly the writer's sequence for its cue list, in order: every
+   language sorted at ms resolution (zero-duration and coinciding cues allowed), distinct language names *)
+Theorem C14_sami_language_order : forall cs, NoDup (map fst cs) ->
+  (forall l caps, In (l, caps) cs -> caps_sorted 0 caps) ->
+  forall l caps, In (l, caps) cs -> cpars l (sami_write cs) = lang_pars caps 0.
+Proof. exact sami_language_order. Qed.
+Print Assumptions C14_sami_language_order.
+(* in the terms of the oracle ok_sami_body: the non-blank paragraphs of a language, each with the start of its
+   block, are its cues at start // 1000 - no cue lost, moved to another time or language, or reordered *)
+Theorem C14_sami_language_cues : forall cs, NoDup (map fst cs) ->
+  (forall l caps, In (l, caps) cs -> caps_sorted 0 caps) ->
+  (forall l caps c, In (l, caps) cs -> In c caps -> str_eqb (wc_text c) (lit "&nbsp;") = false) ->
+  forall l caps, In (l, caps) cs ->
+    pars_of l (sami_write cs) = map (fun c => (wc_start c / 1000, wc_text c)) caps.
+Proof. exact sami_language_cues. Qed.
+Print Assumptions C14_sami_language_cues.
 
 (* ---- language pick ------------------------------------------------------------------------------------------- *)
 Theorem C14_vtt_lang_option : forall l cs c, NoDup (languages cs) -> In (l, c) cs -> vtt_select (Some l) cs = Ok c.
@@ -126,7 +130,7 @@ Proof. vm_compute. reflexivity. Qed.
 Example C14_example_sami_write :
   let cs := [(lit "en", [mkWcue 1000000 2000000 (lit "a1"); mkWcue 5000000 6000000 (lit "a2")]);
              (lit "fr", [mkWcue 500000 1500000 (lit "f1"); mkWcue 5000000 5500000 (lit "f2")])] in
-  caps_strict 0 (snd (hd (lit "", []) cs)) /\
+  caps_sorted 0 (snd (hd (lit "", []) cs)) /\
   sami_write cs = [(500, [(lit "fr", lit "f1")]); (1000, [(lit "en", lit "a1")]); (1500, [(lit "fr", lit "&nbsp;")]);
                    (2000, [(lit "en", lit "&nbsp;")]); (5000, [(lit "en", lit "a2"); (lit "fr", lit "f2")])] /\
   cpars (lit "fr") (sami_write cs) = [(500, lit "f1"); (1500, lit "&nbsp;"); (5000, lit "f2")].
